@@ -102,6 +102,35 @@ theorem c05_catches_up (L : LLog) (f : Follower) (chunks : List (List Cmd)) (h :
   have : (proposeAll f chunks).li = L.length := by omega
   exact ⟨by rw [hi.1, this], this⟩
 
+/-- **the set of replicated tables converges to the leader's**: one reconciliation leaves the
+follower with exactly the leader's table names (tables created on the leader appear, tables deleted
+there disappear), whatever it had before; and afterwards exactly those tables have a worker -/
+theorem c05_tables_converge (leader follower : List String) (n : String) :
+    n ∈ reconcileTables leader follower ↔ n ∈ leader := by
+  simp only [reconcileTables, List.mem_append, List.mem_filter, List.contains_eq_mem, decide_eq_true_eq,
+    Bool.not_eq_true', decide_eq_false_iff_not, Bool.and_eq_true, not_and, Classical.not_imp, Decidable.not_not]
+  constructor
+  · rintro (⟨hf, h⟩ | ⟨hl, _⟩)
+    · exact Classical.byContradiction fun hn => by
+        have := h hf
+        simp_all
+    · exact hl
+  · intro hl
+    by_cases hf : n ∈ follower
+    · exact Or.inl ⟨hf, fun _ => by simp_all⟩
+    · exact Or.inr ⟨hl, hf⟩
+
+theorem c05_workers_converge (tables workers : List String) (n : String) :
+    n ∈ reconcileWorkers tables workers ↔ n ∈ tables := by
+  simp only [reconcileWorkers, List.mem_append, List.mem_filter, List.contains_eq_mem, decide_eq_true_eq,
+    Bool.not_eq_true', decide_eq_false_iff_not]
+  constructor
+  · rintro (⟨_, h⟩ | ⟨h, _⟩) <;> exact h
+  · intro h
+    by_cases hw : n ∈ workers
+    · exact Or.inl ⟨hw, h⟩
+    · exact Or.inr ⟨h, hw⟩
+
 /-- what the follower's state machine does with a proposal, at the level of the table
 specification: the whole sequence and the leader index in one entry -/
 theorem c05_sequence_entry (t : Spec.Table) (idx last : Nat) (cmds : List Cmd) :
